@@ -25,13 +25,15 @@ STRINGS = ["caf\u00e9 \u03c0/2", "\U0001f642", "a\\b\\n", "C:\\temp\\new", "ends
            "tab\there", " lead and trail ", "a\x0bb\x0cc", "a\x85b\u2028c", "'single'", "%s %d {}"]
 
 SCALARS = {
-    "int": [("3", 3), ("-3", -3), ("007", 7), ("2*3+1", 7), ("2**5", 32), ("n0", 4), ("-n0", -4), ("n0*n0-1", 15), ("B0[1]", -6)],
-    "float": [("0.5", 0.5), ("-0.25", -0.25), ("1/4", 0.25), ("3", 3.0), ("2*x0", 5.0), ("x0", 2.5), ("n0", 4.0), ("n0/8", 0.5), ("1e-7", 1e-7), ("A0[3]", 4.25), ("-x0**2", 6.25)],
+    "int": [("9007199254740993", 9007199254740993), ("-9007199254740993", -9007199254740993), ("2**60+1", 2 ** 60 + 1), ("9223372036854775807", 2 ** 63 - 1), ("big", 9007199254740993), ("big-1", 9007199254740992),
+            ("big*1", 9007199254740993), ("4611686018427387905", 2 ** 62 + 1), ("tau", 3), ("-tau*tau", -9), ("3", 3), ("-3", -3), ("007", 7), ("2*3+1", 7), ("2**5", 32), ("n0", 4), ("-n0", -4), ("n0*n0-1", 15), ("B0[1]", -6)],
+    "float": [("inf", 0.75), ("nan", 1.5), ("-inf", -0.75), ("infinity", 2.25), ("e", 2.0), ("2*e", 4.0), ("tau", 3.0), ("0.5", 0.5), ("-0.25", -0.25), ("1/4", 0.25), ("3", 3.0), ("2*x0", 5.0), ("x0", 2.5), ("n0", 4.0), ("n0/8", 0.5), ("1e-7", 1e-7), ("A0[3]", 4.25), ("-x0**2", 6.25)],
     "complex": [("1+2j", 1 + 2j), ("-2j", -2j), ("2*z0", 2 - 4j), ("0.5", 0.5 + 0j), ("3", 3 + 0j), ("z0", 1 - 2j), ("x0", 2.5 + 0j), ("z0*z0", -3 - 4j)],
     "bool": [("True", True), ("False", False)],
     "str": [('"a"', "a"), ('"with space"', "with space"), ('"x=1, y"', "x=1, y"), ('""', "")] + [('"%s"' % t, t) for t in STRINGS] + [("s0", "caf\u00e9 \\n")],
 }
-PRE = "str s0 = \"caf\u00e9 \\n\"\nint n0 = 4\nfloat x0 = 2.5\ncomplex z0 = 1-2j\nfloat array A0 =\n    1.5, 2.5\n    -3.0, 4.25\nint array B0[1, 2] =\n    5, -6\n"
+PRE_NAMED = "float inf = 0.75\nfloat nan = 1.5\nfloat infinity = 2.25\nfloat e = 2.0\nint tau = 3\nint big = 9007199254740993\n"     # names that Python's float() / NumPy / SymPy know
+PRE = PRE_NAMED + "str s0 = \"caf\u00e9 \\n\"\nint n0 = 4\nfloat x0 = 2.5\ncomplex z0 = 1-2j\nfloat array A0 =\n    1.5, 2.5\n    -3.0, 4.25\nint array B0[1, 2] =\n    5, -6\n"
 
 
 def _load(text):
@@ -172,6 +174,12 @@ EXPR_ROWS = {
     "int": ([["n0", "n0*2+1", "-n0"], ["B0[1]", "2**3", "7"]], [[4, 9, -4], [-6, 8, 7]]),
     "float": ([["x0", "n0/8", "A0[3]"], ["-x0**2", "2*x0", "1e-7"]], [[2.5, 0.5, 4.25], [6.25, 5.0, 1e-7]]),
     "complex": ([["z0", "z0*z0", "x0"], ["-2j", "n0", "2*z0"]], [[1 - 2j, -3 - 4j, 2.5], [-2j, 4, 2 - 4j]]),
+    # rows made only of literals and of variables whose names Python's float()/int()/complex() would also accept
+    "float/named": ([["inf", "1.5", "3"], ["nan", "-inf", "infinity"]], [[0.75, 1.5, 3.0], [1.5, -0.75, 2.25]]),
+    "float/named2": ([["e", "nan"], ["2", "+inf"]], [[2.0, 1.5], [2.0, 0.75]]),
+    "complex/named": ([["inf", "2j"], ["nan", "1"]], [[0.75, 2j], [1.5, 1]]),
+    "int/named": ([["tau", "2"], ["-tau", "big"]], [[3, 2], [-3, 9007199254740993]]),
+    "int/big": ([["9007199254740993", "-9223372036854775807"], ["4611686018427387905", "1"]], [[9007199254740993, -9223372036854775807], [4611686018427387905, 1]]),
 }
 
 
@@ -179,6 +187,7 @@ def exprarray_case(c):
     """array entries written as expressions over declared variables and elements of other arrays"""
     t, transpose = c
     rows, want = EXPR_ROWS[t]
+    t = t.split("/")[0]
     if transpose:
         rows = [list(r) for r in zip(*rows)]
         want = [list(r) for r in zip(*want)]
@@ -191,7 +200,7 @@ def exprarray_case(c):
         return ("C05/expression-array-shape-or-dtype", "%r %r" % (getattr(E, "shape", None), getattr(E, "dtype", None)))
     for i, r in enumerate(want):
         for j, w in enumerate(r):
-            if not observe.veq(complex(E[i, j]), complex(w), 1e-12):
+            if (t == "int" and int(E[i, j]) != w) or not observe.veq(complex(E[i, j]), complex(w), 1e-12):
                 return ("C05/expression-array-layout", "E[%d,%d] is %r, written %s = %r" % (i, j, E[i, j], rows[i][j], w))
     flat = [w for r in want for w in r]
     if not observe.veq(complex(p.operations[0]["args"][1]), complex(flat[1]), 1e-12):
